@@ -18,7 +18,7 @@ for patch in sys.argv[2:]:
         env = dict(os.environ)
         for k in ("GOSUMDB", "GOTOOLCHAIN", "GOFLAGS", "GOWORK"): env.pop(k, None)
         env["GOPROXY"] = "off"
-        q = subprocess.run(["/verif/bin/cqlverif", "-p", prop, "-repo", tree, "-verif", out], capture_output=True, text=True, env=env, timeout=900)
+        q = subprocess.run([os.environ.get("CQLVERIF_BIN", "/verif/bin/cqlverif"), "-p", prop, "-repo", tree, "-verif", out], capture_output=True, text=True, env=env, timeout=900)
         txt = q.stdout + q.stderr
         v = [l.strip()[:330] for l in txt.splitlines() if l.strip().startswith("violated") or "NO-VERDICT" in l]
         print(f"== {patch}: exit {q.returncode}")
